@@ -66,6 +66,12 @@ CHECKS.update({
    text="Messages of the repository's annotated test protos (exschemapath, gribi_aft) are built by protoreflect from the descriptors: the empty message, every single supported field set at any position through containers and keyed-list entries, and all compatible pairs (thorough: triples) over small value domains incl. zero values, MaxUint64 and strings with path metacharacters (47,714 cases quick; 2.98M thorough); each case is run repeatedly because protomap ranges over Go maps. PathsFromProto must succeed, leave m unchanged and emit exactly the keyed data-tree paths predicted from the yext.schemapath annotations; ProtoFromPaths into a new message must succeed and be proto.Equal to m.",
    technique="exhaustive enumeration of messages with <=2 (3) populated fields over the annotated descriptors, round-trip law on the real functions", note=VAL_NOTE),
 })
+
+CHECKS.update({
+ "C11": dict(engine="treemc", cat="model_checking", sec="5/C11",
+   text="Every explicit-state search state (k<=1 full alphabet + k<=2 focused, all 8 configurations; thorough k<=2 full) x every read-only / encoding call of the statement with every option value: Validate, Marshal7951 / ConstructIETFJSON / EmitJSON x 4 RFC7951JSONConfig settings, EncodeTypedValue of the root, every sub-struct and every leaf value x JSON/JSON_IETF x caller-supplied config, TogNMINotifications with a caller-owned prefix, DeepCopy, GetNode on every node path x 4 options, Unmarshal of a decoded JSON tree, SetNode / UnmarshalSetRequest / UnmarshalNotifications (incl. TolerateJSONInconsistencies, atomic notifications and slices with spare capacity), gnmidiff with and without schema; Diff / DiffWithAtomic / MergeStructs on all ordered pairs of k<=1 states. Every argument must be unchanged afterwards: trees against a pristine twin (reflection dump incl. unexported fields), protobuf messages against clones plus sentinel elements beyond slice lengths, option structs, decoded JSON trees, the schema root.",
+   technique="explicit-state enumeration of (state x API call x option) on the real implementation with an argument-unchanged frame law against pristine twins", note=TREE_NOTE),
+})
 ALL = [json.loads(l)["id"] for l in open(os.path.join(V, "properties.jsonl"))]
 NA = {
 }
